@@ -5,7 +5,7 @@ def _g(d, pkg, extra=None):
 
 SPEC = {
     "go": [
-        _g("", "ipfscluster", ["root/c18_shutdown_test.go"]),
+        _g("", "ipfscluster", ["root/c18_shutdown_test.go", "root/c18_statesync_test.go"]),
         _g("pintracker/optracker", "optracker"),
         _g("pintracker/stateless", "stateless"),
         _g("monitor/metrics", "metrics"),
